@@ -5,6 +5,7 @@ import (
 	"encoding/json"
 	"fmt"
 	"io"
+	"math/rand"
 	"net"
 	"net/http"
 	"net/http/httptest"
@@ -25,13 +26,12 @@ import (
 // portPair hands out API/proxy ports from a range private to this worker process. Ports probed
 // with Listen(":0") and closed again can be taken by another worker's sidecar before ours binds
 // them, and the readiness probe would then talk to the wrong process.
-var portCounter int
 
 func portPair() (int, int) {
-	base := 20000 + (os.Getpid()%400)*30
-	for try := 0; try < 15; try++ {
-		a := base + (portCounter%15)*2
-		portCounter++
+	// random even port below the ephemeral range (many harness processes run side by side; anything derived from
+	// the process id collides sooner or later); the pair is test-bound before it is handed out
+	for try := 0; try < 40; try++ {
+		a := 10000 + 2*portRand.Intn(5000)
 		ok := true
 		for _, p := range []int{a, a + 1} {
 			l, err := net.Listen("tcp", fmt.Sprintf("127.0.0.1:%d", p))
@@ -47,6 +47,8 @@ func portPair() (int, int) {
 	}
 	return 0, 0
 }
+
+var portRand = rand.New(rand.NewSource(time.Now().UnixNano() ^ int64(os.Getpid())<<20))
 
 type realSidecar struct {
 	cmd    *exec.Cmd
